@@ -22,6 +22,7 @@ from ..selftest import Twin
 from ._engine import CL, STATE, wf_modules
 
 EXPLANATION = __doc__.split("\n\n", 1)[1]
+TECHNIQUE = 'static analysis: field inventory writer/reader agreement between runtime records and serialized forms (computed from attribute loads)'
 TRUSTED = ["CPython ast", "pydantic model_dump / model_validate round trip of declared fields"]
 CT = "workflows.context.context_types"
 IS_REL = "packages/llama-index-workflows/src/workflows/runtime/types/internal_state.py"
